@@ -60,6 +60,9 @@ type WatchFault struct {
 	Dup        map[int]bool  // delivery indices that are sent twice
 	// Frames[i] are extra frames sent before the event with delivery index i.
 	Frames map[int][]watch.Event
+	// LateStream: a cancellation during the connect latency makes the call return at
+	// once, but with the established stream instead of an error.
+	LateStream bool
 	// BookmarkAtClose: when CloseAfter ends the stream, a BOOKMARK frame carrying
 	// the version of the last event sent on this stream goes out first.
 	BookmarkAtClose bool
@@ -90,6 +93,7 @@ type WatchCall struct {
 	LastRV    int // rv of the last event delivered (0 if none)
 	Closed    bool
 	Stopped   bool
+	Streamed  bool // a stream was handed to the caller
 	CtxDone   bool
 	Failed    bool
 }
@@ -425,7 +429,11 @@ func (s *Server) Watch(ctx context.Context, opts metav1.ListOptions) (watch.Inte
 			s.mu.Lock()
 			call.CtxDone = true
 			s.mu.Unlock()
-			return nil, ctx.Err()
+			if !f.LateStream {
+				return nil, ctx.Err()
+			}
+			// the connection was established when the cancellation arrived: the call
+			// returns (as it must), but with the stream, which the caller has to stop
 		}
 	}
 	if f.Block {
@@ -461,6 +469,7 @@ func (s *Server) Watch(ctx context.Context, opts metav1.ListOptions) (watch.Inte
 		st.pos = len(s.log)
 	}
 	s.streams[st] = struct{}{}
+	call.Streamed = true
 	s.mu.Unlock()
 	go st.feed(ctx)
 	return st, nil
@@ -560,6 +569,19 @@ func (st *stream) feed(ctx context.Context) {
 		}
 		idx++
 	}
+}
+
+// UnstoppedStreams counts the streams handed to the caller whose Stop() was never called.
+func (s *Server) UnstoppedStreams() int {
+	s.mu.Lock()
+	defer s.mu.Unlock()
+	n := 0
+	for _, c := range s.watches {
+		if c.Streamed && !c.Stopped {
+			n++
+		}
+	}
+	return n
 }
 
 // ActiveStreams is the number of open watch streams.
